@@ -205,6 +205,7 @@ func c13reset(w *Worker, mk func() *bufOps, h []Op, pos int, how string) {
 	_, open, valid, l := b.state()
 	nt := open || valid < l
 	var taken kept
+	var takenBytes, appended []byte
 	expect := ""
 	if how != "Reset" {
 		expect = b.rs()
@@ -215,7 +216,14 @@ func c13reset(w *Worker, mk func() *bufOps, h []Op, pos int, how string) {
 	case "TakeRedactableString":
 		taken = keep(how, b.takeS())
 	case "TakeRedactableBytes":
-		taken = keep(how, string(b.takeB()))
+		tb := b.takeB()
+		taken = keep(how, string(tb))
+		takenBytes = tb
+		// The caller owns the slice it took: appending to it (as one does to add a
+		// line terminator) must not reach the object, which is "like new" now.
+		if pos%2 == 0 {
+			appended = append(tb, "-appended-by-caller"...)
+		}
 	}
 	w.Eval(1)
 	if how != "Reset" && taken.s != expect {
@@ -244,6 +252,19 @@ func c13reset(w *Worker, mk func() *bufOps, h []Op, pos int, how string) {
 	}
 	if got != want {
 		w.Violate("C13 reuse-differs "+how, b.name+": after "+how+" at "+itoa(pos)+" the suffix yields "+q(got)+", on a new object "+q(want)+"; history="+historyString(h), cs())
+	}
+	if takenBytes != nil && string(takenBytes) != taken.copy {
+		w.Violate("C13 taken-modified", b.name+": the slice returned by TakeRedactableBytes changed from "+q(taken.copy)+" to "+q(string(takenBytes))+" while the object was reused; history="+historyString(h), cs())
+	}
+	if appended != nil && string(appended) != taken.copy+"-appended-by-caller" {
+		w.Violate("C13 taken-aliased", b.name+": bytes the caller appended to the slice it took were overwritten by later writes to the object: "+q(string(appended))+"; history="+historyString(h), cs())
+	}
+	if takenBytes != nil && appended == nil {
+		// the other order: the object is written first, then the caller appends to what it took
+		_ = append(takenBytes, "-appended-late"...)
+		if again := b.rs(); again != got {
+			w.Violate("C13 taken-aliased", b.name+": appending to the slice returned by TakeRedactableBytes changed the object from "+q(got)+" to "+q(again)+"; history="+historyString(h), cs())
+		}
 	}
 	if how != "Reset" && taken.s != taken.copy {
 		w.Violate("C13 taken-modified", b.name+": result of "+how+" changed from "+q(taken.copy)+" to "+q(taken.s)+" while the object was reused; history="+historyString(h), cs())
